@@ -11,7 +11,8 @@ from harness.core import llit, slit
 IMPORTS = "From Coq Require Import List String.\nImport ListNotations.\nFrom Elex Require Import Model.Persist.\nOpen Scope string_scope.\n"
 
 RULE = ("the finite configuration space is enumerated completely every run: 2^4 subsets of save_output {results, data, config, conformalization} x "
-        "{local, non-local environment} x {nonparametric, gaussian, bootstrap} x {minimum-units gate passes, fails} = 192 get_estimates runs against a "
+        "{local, non-local environment} x {nonparametric, gaussian, bootstrap} x {minimum-units gate passes, fails} = 192 get_estimates runs (plus sequences of "
+        "two calls in one process with model_parameters left at its default: what the first call saved must not be saved by the second) against a "
         "fake boto3 client (put_object recorded in order) in an empty working directory (local files listed afterwards); the observed event sequence is "
         "compared inside Coq with writes(cfg); every remote key is checked to be whitespace-free and under <root>/<election id>/. "
         "distinct = configuration; non-trivial = at least one option requested")
@@ -76,6 +77,52 @@ def worker(job):
         shutil.rmtree(wd, ignore_errors=True)
     tables = list(r["tables"].keys()) if r["ok"] else []
     return {"job": list(job), "ok": r["ok"], "exc": r["exc"], "puts": log, "files": sorted(files), "tables": tables}
+
+
+def history_job(job):
+    """sequences of calls in ONE process (model_parameters left at its default): what an earlier call asked to save must not be saved by a later one"""
+    from harness import run_impl
+
+    idx, first_save, second_save, pi = job
+    client = run_impl._imp()
+    import boto3
+
+    import elexmodel.handlers.s3 as s3mod
+
+    log = []
+    orig = boto3.client
+    s3mod.boto3.client = lambda *a, **k: FakeS3(log)
+    old_env = client.APP_ENV
+    client.APP_ENV = "prod"
+    wd = os.path.join(core.BUILD, "c18", f"h{idx}")
+    shutil.rmtree(wd, ignore_errors=True)
+    os.makedirs(wd)
+    cwd = os.getcwd()
+    os.chdir(wd)
+    out = {"job": list(job)}
+    try:
+        rng = random.Random(77 + idx)
+        case = gen.gen_election(rng, n_states=1, n_units=40, office="S", unit_type="county")
+        base = case["baseline"][:40]
+        case["baseline"] = base
+        case["feed"] = [gen.live_row(rng, b, 100 if i < 32 else 30) for i, b in enumerate(base)]
+        case["params"] = {"estimands": ["turnout"], "prediction_intervals": [0.7], "percent_reporting_threshold": 100, "pi_method": pi,
+                          "aggregates": ["postal_code", "county_fips", "unit"], "features": [], "fixed_effects": {}, "handle_unreporting": "drop",
+                          "save_output": list(first_save)}
+        mc = client.ModelClient()
+        r1 = run_impl.run_case(case, client_obj=mc, omit_model_parameters=True)
+        n1 = len(log)
+        files1 = sorted(os.path.relpath(os.path.join(d, f), wd) for d, _, fs in os.walk(wd) for f in fs)
+        case["params"]["save_output"] = list(second_save)
+        r2 = run_impl.run_case(case, client_obj=client.ModelClient(), omit_model_parameters=True)
+        out.update({"ok": r1["ok"] and r2["ok"], "exc": [r1["exc"], r2["exc"]], "first_puts": log[:n1], "second_puts": log[n1:],
+                    "new_files": sorted(set(os.path.relpath(os.path.join(d, f), wd) for d, _, fs in os.walk(wd) for f in fs) - set(files1))})
+    finally:
+        os.chdir(cwd)
+        client.APP_ENV = old_env
+        s3mod.boto3.client = orig
+        shutil.rmtree(wd, ignore_errors=True)
+    return out
 
 
 def classify_put(key):
@@ -152,6 +199,31 @@ def run(chk):
         if r != "true":
             chk.violation(f"configuration {o['job'][1:]}: observed events {o.get('events')} (puts {o['puts'][:6]}, files {o['files']}) differ from writes(cfg) [{r}]",
                           {"kind": "c18", "job": o["job"]}, {"kind": "events-differ", "save": ",".join(o["job"][1]), "local": o["job"][2], "pi": o["job"][3]})
+    # call sequences in one process
+    hjobs = []
+    k = 0
+    for pi in ("gaussian", "nonparametric", "bootstrap"):
+        for first, second in ((("conformalization", "results", "data", "config"), ()), (("conformalization",), ("results",)), (("results",), ("conformalization",)), ((), ())):
+            if pi == "bootstrap":
+                continue
+            hjobs.append((k, first, second, pi))
+            k += 1
+    houts = core.pmap(history_job, hjobs)
+    for o in houts:
+        idx, first, second, pi = o["job"]
+        chk.count({"history": [first, second], "pi": pi}, nontrivial=bool(first), sample={"first_call_save_output": first, "second_call_save_output": second, "estimator": pi,
+                                                                                         "second_call_puts": o.get("second_puts"), "second_call_new_files": o.get("new_files")})
+        replay = {"kind": "c18-history", "job": o["job"]}
+        if not o.get("ok"):
+            chk.violation(f"history run failed: {o.get('exc')}", replay, {"kind": "run-failed"}, no_input=True)
+            continue
+        want_conf = "conformalization" in second and pi == "gaussian"
+        want_res = "results" in second
+        got_conf = [kk for kk in o["second_puts"] if "/gaussian/" in kk]
+        got_res = [kk for kk in o["second_puts"] if "/gaussian/" not in kk]
+        if bool(got_conf) != want_conf or bool(got_res) != want_res or (o["new_files"] and not ({"data", "config"} & set(second))):
+            chk.violation(f"{pi}: after a call with save_output={list(first)}, a call with save_output={list(second)} wrote {o['second_puts'][:4]} / files {o['new_files'][:3]}",
+                          replay, {"kind": "stale-save-option", "estimator": pi})
     if not ok and not [v for v in chk.violations if not v["no_input"]]:
         chk.violation("proof obligations / generated facts of C18 no longer check", {"theorem_file": "coq/Properties/C18.v", "log": rep.get("log_tail", "")[-1500:],
                                                                                    "translator": chk.notes.get("translator_problems")}, {"kind": "proof-broken"}, no_input=True)
@@ -159,6 +231,7 @@ def run(chk):
 
 
 def replay(chk, payload):
-    o = worker(tuple(payload["replay"]["job"]))
+    r = payload["replay"]
+    o = history_job(tuple(r["job"])) if r.get("kind") == "c18-history" else worker(tuple(r["job"]))
     print(json.dumps(o, indent=1, default=str))
     return 0
